@@ -127,7 +127,9 @@ def r15_1(ctx: Ctx, rep: Report) -> None:
     ul = [n for n in ucfg.live if n.kind == "for"]
     rep.require(bool(ul), "Acl._ungroup: loop vanished")
     linear_loop(ctx, rep, ug, ul[0], "ungroup")
-    lg = ctx.func("Acl.line.getter")
+    from .normalise import normalised as _nrm_lg
+
+    lg = _nrm_lg(ctx, ctx.func("Acl.line.getter"), "decomp")  # the flattening written as a nested comprehension
     lcfg = ctx.cfg(lg)
     ll = [n for n in lcfg.live if n.kind == "for" and src(n.ast.iter) in ("self._items", "self.items")]
     rep.require(bool(ll), "Acl.line getter: flatten loop vanished")
